@@ -65,6 +65,64 @@ def culture_blob(cname):
     return blob
 
 
+# ---------------------------------------------------------------------------------------------------
+# case folding: `_match_case_insensitive` compares `substring.lower() == match.lower()`.  str.lower() works character
+# by character except for U+0130 (lower() has two characters) and the final-sigma rule for U+03A3; the model takes the
+# folding of the other non-ASCII characters as a table sent with the op and answers !dom when a character is not listed
+# ---------------------------------------------------------------------------------------------------
+
+def fold_pairs(strings):
+    """[(ch, ch.lower())] for the non-ASCII characters of `strings` whose lower() is one character (not U+03A3)"""
+    seen = {}
+    for st in strings:
+        for ch in st:
+            if ord(ch) >= 128 and ch not in seen:
+                lo = ch.lower()
+                if len(lo) == 1 and ch != "\u03a3" and not 0xd800 <= ord(ch) <= 0xdfff:
+                    seen[ch] = lo
+    return seen
+
+
+_CULT_STRINGS = {}
+
+
+def culture_strings(cname):
+    """every string of the culture a text step compares case-insensitively"""
+    if cname not in _CULT_STRINGS:
+        fi = c07.fmt_info(cname)
+        P = c07._P()
+        ss = [fi.am_designator or "", fi.pm_designator or ""]
+        for t in (fi.long_month_names, fi.short_month_names, fi.long_month_genitive_names, fi.short_month_genitive_names,
+                  fi.long_day_names, fi.short_day_names):
+            ss += [x or "" for x in t]
+        for e in list(P.CalendarSystem.iso.eras()) + other_eras():
+            ss += list(fi.get_era_names(e)) + [fi.get_era_primary_name(e) or ""]
+        _CULT_STRINGS[cname] = ss
+    return _CULT_STRINGS[cname]
+
+
+def fold_token(cname, text=""):
+    d = fold_pairs(culture_strings(cname) + [text])
+    if not d:
+        return "-"
+    try:
+        return hexs("".join(k + v for k, v in d.items()))
+    except UnicodeEncodeError:
+        return "-"
+
+
+def fold_lower(table):
+    """the model's folding as a string function: ASCII by ascii_lower, other characters by the table"""
+    def low(st):
+        return "".join(chr(ord(ch) + 32) if "A" <= ch <= "Z" else (ch if ord(ch) < 128 else table.get(ch, ch)) for ch in st)
+    return low
+
+
+def unfold_token(tok):
+    st = unhex(tok)
+    return {st[i]: st[i + 1] for i in range(0, len(st) - 1, 2)}
+
+
 def other_eras():
     """anno martyrum (Coptic), anno mundi (Hebrew), anno persico, anno hegirae, Bahá'í — taken from the calendars"""
     P = c07._P()
@@ -190,10 +248,31 @@ def impl(t):
             return f"ok {hexs(s)} {c.index}"
     if op == "pat.calids":
         return hexs(SEP.join(c07._P().CalendarSystem.ids))
+    if op == "inst.extents":
+        P = c07._P()
+        return "1" if all(c07.INST_MIN_DAYS <= cal_by_ord(k)._min_days and cal_by_ord(k)._max_days <= c07.INST_MAX_DAYS for k in range(19)) else "0"
     if op == "pat.calords":
         return hexs(SEP.join(cal_by_ord(k).id for k in range(19)))
     if op == "cu.names":
-        return names_conditions(_BLOB2NAME[t[1]], ascii_lower)
+        return names_conditions(_BLOB2NAME[t[1]], fold_lower(unfold_token(t[2])) if len(t) > 2 else ascii_lower)
+    if op in ("inst.fmt", "inst.parse"):
+        # the Instant adapter: values as (day number, nanosecond of day)
+        text, cname = unhex(t[1]), _BLOB2NAME[t[2]]
+        pat = c07.create("instant", text, cname)
+        P = c07._P()
+        if op == "inst.fmt":
+            days, nod = int(t[3]), int(t[4])
+            if days < c07.INST_MIN_DAYS:
+                x = P.Instant._before_min_value()
+            elif days > c07.INST_MAX_DAYS:
+                x = P.Instant._after_max_value()
+            else:
+                x = P.Instant._ctor(days=days, nano_of_day=nod)
+            return hexs(pat.format(x))
+        r = pat.parse(unhex(t[3]))
+        if not r.success:
+            return "fail"
+        return f"ok {r.value._days_since_epoch} {r.value._nanosecond_of_day}"
     if op == "pat.compile":
         tok, text, cname = t[1], unhex(t[2]), _BLOB2NAME[t[3]]
         pat = create_t(tok, text, cname, fresh=True)
@@ -298,6 +377,23 @@ def oracle(t):
         if s1 != s2:
             return fail("format-nondeterministic", f"{label}: format({a!r}) gave {s1!r} then {s2!r}")
         return c08.parse_failure(ty, pat, s1, label)
+    if op in ("inst.fmt", "inst.parse"):
+        text, cname = unhex(t[1]), _BLOB2NAME[t[2]]
+        try:
+            pat = c07.create("instant", text, cname)
+        except Exception:  # noqa: BLE001
+            return None
+        label = f"InstantPattern {text!r} culture {cname!r}"
+        if op == "inst.parse":
+            return c08.parse_failure("instant", pat, unhex(t[3]), label)
+        days, nod = int(t[3]), int(t[4])
+        if not c07.INST_MIN_DAYS <= days <= c07.INST_MAX_DAYS:
+            return None
+        try:
+            s1 = pat.format(c07.mk("instant", (days, nod)))
+        except Exception as e:  # noqa: BLE001
+            return fail("format-raises-" + type(e).__name__, f"{label}: format({(days, nod)!r}) raised {type(e).__name__}: {e}")
+        return c08.parse_failure("instant", pat, s1, label)
     if op.startswith("pcur."):
         got = c07.guard(impl, t)
         if got.startswith("!") and got != "!invalidPattern":
@@ -371,7 +467,7 @@ def gen_compile_ops(ctx, n, cnames):
     """valid and malformed pattern texts of the three modelled types"""
     import c08
     rng = ctx.rng
-    ops = ["pat.calids", "pat.calords"]
+    ops = ["pat.calids", "pat.calords", "inst.extents"]
     pool = list("HhmsfFtTuyMdcglZDS+-:/.;'\"\\%<> ,xQ0\0é") + ["''", "'x'", "\\\\"]
     texts = []
     for ty in MODEL_TYPES:
@@ -516,6 +612,12 @@ def gen_engine_ops(ctx, npat, cnames, hostile):
             else:
                 a = list(v) if ty in ("annual", "duration") else [v]
             fmt_ops.append(f"pat.fmt {tok} {h} {blob} " + " ".join(str(x) for x in a))
+            if ty == "instant":
+                fmt_ops.append(f"inst.fmt {h} {blob} {v[0]} {v[1]}")
+                if rep == 0:
+                    for dd, nn in ((c07.INST_MIN_DAYS, 0), (c07.INST_MAX_DAYS, c07.NPD - 1), (c07.INST_MIN_DAYS - 1, 0), (c07.INST_MAX_DAYS + 1, 0),
+                                   (-25567, 0), (-25568, c07.NPD - 1), (47846, 5), (47847, 0), (0, 0), (-1, c07.NPD - 1)):
+                        fmt_ops.append(f"inst.fmt {h} {blob} {dd} {nn}")
             try:
                 txt = pat.format(c07.mk(ty, v))
             except Exception:  # noqa: BLE001
@@ -534,7 +636,9 @@ def gen_engine_ops(ctx, npat, cnames, hostile):
                 texts += rng.sample(c08.builtin_out_of_range("duration"), 12) + DURATION_EXTREMES
             for tx in texts:
                 try:
-                    parse_ops.append(f"pat.parse {tok} {h} {blob} {hexs(tx)}")
+                    parse_ops.append(f"pat.parse {tok} {h} {blob} {hexs(tx)} {fold_token(cn, tx)}")
+                    if ty == "instant":
+                        parse_ops.append(f"inst.parse {h} {blob} {hexs(tx)} {fold_token(cn, tx)}")
                 except UnicodeEncodeError:
                     pass
     return fmt_ops, parse_ops
@@ -552,15 +656,17 @@ def run_engine_correspondence(ctx, hostile):
     seen, dl = set(), []
     for op in fmt_ops:
         t = op.split(" ")
+        if t[0] != "pat.fmt":
+            continue
         key = " ".join(t[1:4])
         if key not in seen:
             seen.add(key)
-            dl.append("pat.delim " + key)
+            dl.append("pat.delim " + key + " " + fold_token(_BLOB2NAME.get(t[3], "")))
     rep = c07.model_eval(dl, "drv_text")
     ctx.note("stepped_roundtrip:Delimited-holds", {"patterns": len(rep), "delimited": rep.count("1"), "not": rep.count("0"), "not-stepped": rep.count("-")})
     ctx.note("segmented_roundtrip:DelimitedSegs-holds", {"patterns-with-embedded-parts": rep.count("3") + rep.count("2"), "delimited": rep.count("3"), "not": rep.count("2")})
     # compileDate_wf / compileDateTime_wf say every accepted date-like pattern passes the decidable check; evaluated here as well
-    wl = ["pat.wf" + x[len("pat.delim"):] for x in dl if x.split(" ")[1].split(":")[0] in ("date", "datetime", "annual", "instant")]
+    wl = ["pat.wf " + " ".join(x.split(" ")[1:4]) for x in dl if x.split(" ")[1].split(":")[0] in ("date", "datetime", "annual", "instant", "dateC", "datetimeC")]
     wrep = c07.model_eval(wl, "drv_text")
     if "0" in wrep:
         raise c07.InfraError("pat.wf = 0 for an accepted pattern (contradicts compileDate_wf / compileDateTime_wf): " + wl[wrep.index("0")])
@@ -726,7 +832,7 @@ def run_names(ctx):
     for cn in cnames:
         blob = culture_blob(cn)
         if blob is not None:
-            ops.append(f"cu.names {blob}")
+            ops.append(f"cu.names {blob} {fold_token(cn)}")
     ctx.correspond("text.names", ops, impl, driver="drv_text")
     failing, extended, examples = {}, {}, {}
     for cn in cnames:
@@ -792,5 +898,9 @@ def run_compile_correspondence(ctx):
         return fail("culture-offset-pattern-not-custom", f"culture {cn!r}: an offset pattern text has fewer than two characters: {ts!r}")
     ctx.check_cases("hypothesis.offsetTextsCustom", cnames, offset_texts_custom, exhaustive=ctx.thorough)
     culture_hypotheses(ctx, cnames)
+    # hypothesis CalExtents of C08.parseInstant_spec: every calendar lies inside the Instant range (evaluated by the model)
+    if c07.model_eval(["inst.extents"], "drv_text") != ["1"]:
+        raise c07.InfraError("inst.extents != 1: a calendar description reaches outside the Instant range (hypothesis CalExtents)")
+    ctx.note("CalExtents(evaluated by the compiled model)", 1)
     ctx.correspond("text.pcur", gen_cursor_ops(ctx, ctx.scale(1500, 100_000)), impl, oracle=oracle, driver="drv_text")
     ctx.correspond("text.pat.compile", gen_compile_ops(ctx, ctx.scale(5000, 300_000), cnames), impl, oracle=oracle, driver="drv_text")
